@@ -6,5 +6,6 @@ CONSTANTS
   MaxQ = 100000
   FIX_ERR = TRUE
   FIX_RACE = TRUE
+  FIX_RDCLOSED = TRUE
 POSTCONDITION Accepted
 CHECK_DEADLOCK FALSE
